@@ -90,6 +90,53 @@ def _t1(ctx, P):
     ctx.floor("T1", "mutator sites examined", sites, 60)
 
 
+VALUE_TYPES = {"str", "int", "float", "bool", "bytes", "complex", "None"}
+
+
+def _value_annotation(a) -> bool:
+    """An annotation that admits only immutable values compared by value: str / int / ... / Tuple[...] / FrozenSet[...] of such."""
+    if a is None:
+        return False
+    if isinstance(a, ast.Constant):
+        return a.value is None or (isinstance(a.value, str) and a.value in VALUE_TYPES)
+    if isinstance(a, ast.Name):
+        return a.id in VALUE_TYPES or a.id.startswith("T_") and False
+    if isinstance(a, ast.Subscript):
+        base = a.value.id if isinstance(a.value, ast.Name) else getattr(a.value, "attr", "")
+        if base in ("Tuple", "tuple", "FrozenSet", "frozenset", "Optional", "Union"):
+            sl = a.slice
+            elts = sl.elts if isinstance(sl, ast.Tuple) else [sl]
+            return all(isinstance(e, ast.Constant) and e.value is Ellipsis or _value_annotation(e) for e in elts)
+    return False
+
+
+def _pure_value_function(cache_call, P) -> bool:
+    """Is this `lru_cache(...)` / `cache` the decorator of a function all of whose parameters are annotated as immutable values
+    (text, numbers, tuples of them) and that contains no store into anything but its own locals?  Such a memo keys on the
+    values themselves and cannot go stale: no object of a caller, no Grid, no array can be a key (arrays and dictionaries
+    are not hashable at all, a Grid would be keyed by identity - which is exactly what must not be remembered)."""
+    for q, fi in P.functions.items():
+        for d in fi.node.decorator_list:
+            if d is cache_call or (isinstance(d, ast.Call) and d.func is cache_call) or d is getattr(cache_call, "func", None):
+                a = fi.node.args
+                params = a.posonlyargs + a.args + a.kwonlyargs
+                if a.vararg or a.kwarg or not params:
+                    return False
+                if not all(_value_annotation(p.annotation) for p in params):
+                    return False
+                for n in ast.walk(fi.node):
+                    if isinstance(n, (ast.Global, ast.Nonlocal)):
+                        return False
+                    if isinstance(n, (ast.Attribute, ast.Subscript)) and isinstance(n.ctx, (ast.Store, ast.Del)):
+                        base = n.value
+                        while isinstance(base, (ast.Attribute, ast.Subscript)):
+                            base = base.value
+                        if not (isinstance(base, ast.Name) and base.id not in {p.arg for p in params}):
+                            return False
+                return True
+    return False
+
+
 def _module_state(ctx, P):
     n = 0
     for q, fi in P.functions.items():
@@ -113,9 +160,10 @@ def _module_state(ctx, P):
             if tgt is not None:
                 ctx.report("R18.3", fi, norm(tgt, 100), f"{q} writes into the module-level object `{norm(tgt, 40)}`: module state survives between calls", tgt)
             if isinstance(node, ast.Call) and isinstance(node.func, (ast.Name, ast.Attribute)) and (getattr(node.func, "id", "") in ("lru_cache", "cache") or getattr(node.func, "attr", "") in ("lru_cache", "cache")):
-                ctx.report("R18.3", fi, norm(node, 80), "a memoising cache keeps results between calls", node)
+                if not _pure_value_function(node, P):
+                    ctx.report("R18.3", fi, norm(node, 80), "a memoising cache keeps results between calls", node)
         for d in fi.node.decorator_list:
-            if "lru_cache" in norm(d) or norm(d).endswith("cache"):
+            if ("lru_cache" in norm(d) or norm(d).endswith("cache")) and not _pure_value_function(d, P):
                 ctx.report("R18.3", fi, norm(d, 80), f"{q} is memoised: its result depends on the call history", d)
     ctx.ok("R18.3", f"{len(P.functions)} functions scanned for module-state writers and caches", "none")
 
